@@ -83,6 +83,9 @@ func (t *traceWriter) emitCase(c *Case, pair string, allOrders bool) []Ret {
 	}
 	t.cases++
 	strStyle = t.cases % 2
+	if pair == "validate13" || pair == "parse13" {
+		strStyle = ((t.cases + 1) / 2) % 2 // both halves of a pair see the same strings
+	}
 	if t.chainMode || c.Fe == "env" || usesContains(c.Schema) {
 		strStyle = 0 // Contains("xx") must mean "at least two characters"; the environment front end trims whitespace
 	}
